@@ -7,31 +7,36 @@
 (* together with the requests derived from it (RouterUniverse!Requests).                 *)
 EXTENDS RouterUniverse, FiniteSetsExt, Json, CSV
 
-CONSTANTS MaxLen,      \* longest template (segments)
+CONSTANTS Kinds,       \* family universes: "plain" (shapes over {a, b, V} up to MaxLen), "mixed" (MixedShapes)
+          MaxLen,      \* longest template (segments)
           MaxT,        \* templates per document
           ServerSet,   \* server shapes to cross with
+          MixedServerSet, MixedCoreServers,   \* the same two sets for the "mixed" universe
+          MixedMethKeys,                      \* method sets a template of the "mixed" universe may have
           CoreLen, CoreT, CoreServers,   \* documents within these bounds are always emitted ...
           Slice, Seed  \* ... of the others every Slice-th one, chosen by Seed (Slice = 0: none)
 
-VARIABLES tm, sk
-vars == <<tm, sk>>
+VARIABLES tm, sk, kind
+vars == <<tm, sk, kind>>
 
 NoFam == [x \in {} |-> "G"]
 
-Init == tm = NoFam /\ sk = ""
+Init == tm = NoFam /\ sk = "" /\ kind \in Kinds
+
+ShapeSet == IF kind = "mixed" THEN MixedShapes ELSE ShapesUpTo(MaxLen)
 
 (* GET/POST are interchangeable: the lowest-ranked template never has POST only *)
 MethOK(f) == LET lo == CHOOSE s \in DOMAIN f : \A s2 \in DOMAIN f : ShapeRank(s) <= ShapeRank(s2)
              IN f[lo] # "P"
 
 AddTemplate == /\ sk = "" /\ Cardinality(DOMAIN tm) < MaxT
-               /\ \E sh \in ShapesUpTo(MaxLen) \ DOMAIN tm, mk \in MethKeys :
+               /\ \E sh \in ShapeSet \ DOMAIN tm, mk \in (IF kind = "mixed" THEN MixedMethKeys ELSE MethKeys) :
                      tm' = [s \in DOMAIN tm \cup {sh} |-> IF s = sh THEN mk ELSE tm[s]]
-               /\ UNCHANGED sk
+               /\ UNCHANGED <<sk, kind>>
 
 ChooseServer == /\ sk = "" /\ DOMAIN tm # {} /\ MethOK(tm)
-                /\ \E k \in ServerSet : (k = "pslast" => Cardinality(DOMAIN tm) > 1) /\ sk' = k
-                /\ UNCHANGED tm
+                /\ \E k \in (IF kind = "mixed" THEN MixedServerSet ELSE ServerSet) : (k = "pslast" => Cardinality(DOMAIN tm) > 1) /\ sk' = k
+                /\ UNCHANGED <<tm, kind>>
 
 Next == AddTemplate \/ ChooseServer
 Spec == Init /\ [][Next]_vars
@@ -39,8 +44,9 @@ Spec == Init /\ [][Next]_vars
 Complete == sk # ""
 TheDoc == Doc(tm, sk)
 
-InCore == /\ Cardinality(DOMAIN tm) <= CoreT /\ \A s \in DOMAIN tm : Len(s) <= CoreLen
-          /\ sk \in CoreServers
+InCore == /\ Cardinality(DOMAIN tm) <= CoreT
+          /\ IF kind = "mixed" THEN sk \in MixedCoreServers
+             ELSE sk \in CoreServers /\ \A s \in DOMAIN tm : Len(s) <= CoreLen
 MethCode(mk) == CASE mk = "G" -> 1 [] mk = "P" -> 2 [] mk = "GP" -> 3
 Mix(n) == (n * 7919) % 1013
 Hash == MapThenSumSet(LAMBDA s : Mix(ShapeRank(s) + 1000 * MethCode(tm[s])), DOMAIN tm) + Mix(SrvRank(sk))
